@@ -309,12 +309,31 @@ func (w verifPairWriter) Write(p []byte) (int, error) {
 // VerifModePair wires a sending and a receiving trzszTransfer back to back (directory mode)
 // and runs the real sendFiles(checkPathsReadable(paths)) against the real recvFiles(dest).
 func VerifModePair(paths []string, dest string, overwrite bool, protocol int, timeoutSec int, deadline time.Duration) VerifPairResult {
+	return VerifModePairCfg(paths, dest, VerifPairCfg{Overwrite: overwrite, Protocol: protocol, TimeoutSec: timeoutSec}, deadline)
+}
+
+// VerifPairCfg is the part of the negotiated configuration both ends of VerifModePairCfg share.
+type VerifPairCfg struct {
+	Overwrite  bool
+	Protocol   int
+	Compress   int // 0 auto, 1 yes, 2 no
+	Binary     bool
+	TimeoutSec int
+}
+
+// VerifModePairCfg is VerifModePair with the compression type and the binary flag chosen.
+func VerifModePairCfg(paths []string, dest string, cfg VerifPairCfg, deadline time.Duration) VerifPairResult {
+	overwrite, protocol, timeoutSec := cfg.Overwrite, cfg.Protocol, cfg.TimeoutSec
 	var res VerifPairResult
 	var mu sync.Mutex
 	var s2r, r2s bytes.Buffer
 	var sender, receiver *trzszTransfer
 	sender = verifModeTransfer(verifPairWriter{&mu, &s2r, &receiver}, overwrite, protocol, timeoutSec)
 	receiver = verifModeTransfer(verifPairWriter{&mu, &r2s, &sender}, overwrite, protocol, timeoutSec)
+	for _, t := range []*trzszTransfer{sender, receiver} {
+		t.transferConfig.CompressType = compressType(cfg.Compress)
+		t.transferConfig.Binary = cfg.Binary
+	}
 	src, err := checkPathsReadable(paths, true)
 	if err != nil {
 		res.SendErr = "scan: " + err.Error()
@@ -373,4 +392,38 @@ func VerifModePair(paths []string, dest string, overwrite bool, protocol int, ti
 		res.RecvErr = recvErr.Error()
 	}
 	return res
+}
+
+// ---- names: the validity check applied to every path element of a NAME record / entry header ----
+
+// VerifArchiveCheckName is checkFileName: true = accepted.
+func VerifArchiveCheckName(name string) bool { return checkFileName(name) == nil }
+
+// ---- the archive stream as a source file: the compression decision ----
+
+// VerifArchiveCompress runs the real sendCompressFlag on the archive reader of a: the decision,
+// whether a COMP line was written, the error text ("" = none), and the announced size.
+func (a *VerifArchive) VerifArchiveCompress(protocol int, compress int, binary bool) (comp bool, sentComp bool, errText string, size int64, rd VerifSizedReadCloser) {
+	r, err := a.t.newArchiveReader(a.root)
+	if err != nil {
+		return false, false, "reader: " + err.Error(), 0, nil
+	}
+	var out bytes.Buffer
+	t := newTransfer(&out, nil, false, nil)
+	t.transferConfig.Protocol = protocol
+	t.transferConfig.CompressType = compressType(compress)
+	t.transferConfig.Binary = binary
+	func() {
+		defer func() {
+			if p := recover(); p != nil {
+				errText = fmt.Sprintf("panic: %v", p)
+			}
+		}()
+		c, err := t.sendCompressFlag(r)
+		comp = c
+		if err != nil {
+			errText = err.Error()
+		}
+	}()
+	return comp, bytes.Contains(out.Bytes(), []byte("#COMP:")), errText, r.getSize(), verifArchiveReader{r}
 }
